@@ -422,6 +422,11 @@ class CallMixin:
         return self.enum_set(it.t, s.elem)
       if isinstance(s, S.DictOf):
         return self.enum_set(s.dom(it.t), s.key)
+    if isinstance(it, tuple) and it and it[0] == 'range':
+      lo, hi = it[1], it[2]
+      si = S.Seq(S.INT)
+      p = z3.FreshConst(z3.IntSort(), 'p')
+      return V(si, si.mk(z3.Lambda([p], z3.simplify(lo + p)), z3.simplify(z3.If(hi > lo, hi - lo, z3.IntVal(0)))))
     if isinstance(it, tuple) and it and it[0] == 'dict_items':
       d = it[1]
       s = d.sort
